@@ -41,12 +41,9 @@ from . import rules_flow as R  # noqa: E402
 
 
 def _dbg(ctx):
-    from . import rules_svg as S
-    f = ctx.facts("svg")
-    S.c12_r1(ctx, f); S.c12_r2(ctx, f); S.c12_r3(ctx, f); S.c12_r4(ctx, f); S.c12_r5(ctx, f); S.c12_r6(ctx, f); S.c12_t1(ctx, f)
-    S.c18_t1(ctx, f); S.c18_r1(ctx, f)
-    S.c19_fn(ctx, f, "convert::svg::SvgBuilder::to_file", 2); S.c19_r3(ctx, f)
-    S.c19_r4(ctx, f, [("<convert::ConvertError as std::convert::From<convert::svg::SvgError>>::from", {"SvgError": "Svg", "IoError": "Io"})])
+    from . import rules_wasm as Wm
+    f = ctx.facts("wasm")
+    Wm.c17_r1(ctx, f); Wm.c17_r2(ctx, f); Wm.c17_r3(ctx, f); Wm.c17_r4(ctx, f); Wm.c17_r5(ctx, f)
     return dict(level="other", explanation="debug")
 
 
